@@ -162,7 +162,11 @@ func report(a RunArgs, eng Engine, engName string, info Info, results []*Result,
 		v := bySig[sig][0]
 		dir := a.Replay
 		if a.Replay == "" {
-			dir = filepath.Join(a.VerifDir, "replays", a.Prop, fmt.Sprintf("%s-%d", v.r.Hash[:10], v.r.Index))
+			base := filepath.Join(a.VerifDir, "replays")
+			if os.Getenv("VERIF_NO_EVIDENCE") != "" {
+				base = filepath.Join(os.TempDir(), "vcheck-replays-scratch")
+			}
+			dir = filepath.Join(base, a.Prop, fmt.Sprintf("%s-%d", v.r.Hash[:10], v.r.Index))
 			_ = os.MkdirAll(dir, 0o755)
 			c := eng.Gen(a.Prop, a.Tier, a.Seed, v.r.Index)
 			cb, _ := json.MarshalIndent(c, "", " ")
@@ -190,7 +194,7 @@ func report(a RunArgs, eng Engine, engName string, info Info, results []*Result,
 	}
 	sort.Strings(knownList)
 
-	if a.Replay == "" {
+	if a.Replay == "" && os.Getenv("VERIF_NO_EVIDENCE") == "" {
 		var samples []any
 		for _, i := range ntIdx {
 			samples = append(samples, sampleOf(eng.Gen(a.Prop, a.Tier, a.Seed, i)))
